@@ -394,6 +394,8 @@ func (f *Frame) enterLoop(li *loopInfo) *BState {
 	st := &BState{st0.reach, heap}
 	li.hdrHeap = heap.clone()
 	preInv := len(s.facts)
+	li.preInv = preInv
+	li.hdrReach = st0.reach
 	if li.lc != nil {
 		env := f.loopEnv(li, nil)
 		f.addIterNames(env, li, heap)
@@ -407,7 +409,7 @@ func (f *Frame) enterLoop(li *loopInfo) *BState {
 		if !f.dry {
 			// vacuity guard: the invariants together with reachability must be satisfiable
 			s.addObl(&Obligation{Name: lname + ".cover", Kind: "cover", Guard: st.reach, Goal: "true", Cover: true, Pos: s.posOf(li.minPos),
-				Clause: "loop invariants are satisfiable together with the path condition (vacuity guard)", PreNFacts: preInv})
+				Clause: "loop invariants are satisfiable together with the path condition (vacuity guard)", PreNFacts: preInv, ReachGuard: st0.reach})
 		}
 	}
 	return st
@@ -461,6 +463,9 @@ func (f *Frame) backEdge(u, h *ssa.BasicBlock) {
 	if li.lc == nil {
 		return
 	}
+	// vacuity guard: the path through the body to this back edge must be satisfiable (otherwise every preserve obligation is vacuous)
+	s.addObl(&Obligation{Name: lname + ".body-cover", Kind: "cover", Guard: guard, Goal: "true", Cover: true, Pos: s.posOf(li.minPos),
+		Clause: "the loop body can reach this back edge under the invariants (vacuity guard)", PreNFacts: li.preInv, ReachGuard: li.hdrReach})
 	env := f.loopEnv(li, u)
 	f.addIterNames(env, li, o.heap)
 	for k, cl := range li.lc.Invariants {
